@@ -2,6 +2,8 @@ import sys
 from .core import main
 
 MODULES = {
+    "C02": "props.c02",
+    "C03": "props.c03",
     "C11": "props.c11",
 }
 
